@@ -126,7 +126,7 @@ class ExprMixin:
         return Val(py=("modattr", f"{mi.relpath}:{name}"))
 
     SPEC_FUNCS = {"old", "implies", "iff", "forall", "exists", "result", "is_exc", "typeof_is", "str_eq", "fresh_ref",
-                  "unchanged", "contains", "same_except"}
+                  "unchanged", "contains", "same_except", "is_fresh"}
 
     # ------------------------------------------------------------ attribute access
     def ev_Attribute(self, node, st):
@@ -359,7 +359,7 @@ class ExprMixin:
         if len(outs) != 1 or outs[0].kind != "val":
             return None
         o = outs[0].st
-        st.heap, st.nalloc, st.pc = o.heap, o.nalloc, o.pc
+        st.heap, st.nalloc, st.alloc_base, st.pc = o.heap, o.nalloc, o.alloc_base, o.pc
         return outs[0].val
 
     # ------------------------------------------------------------ operators
